@@ -1,6 +1,12 @@
-(* Geometry of the baseline decoder: every index it forms is inside the component buffer;
-   the scan's block grid versus the allocated block grid (refuted for subsampled luma). *)
-From V Require Import Common.Base JpegDCT.DctGeometry.
+(* Geometry of the baseline decoder (as fixed by F16: comp.width = mcuCols*H, comp.height =
+   mcuRows*V): for all sampling factors and all widths/heights, every scan block lands on
+   its own distinct cell of the component grid, every index is in range, every grid cell is
+   delivered by the scan, and every pixel the converter reads comes from the block the scan
+   wrote for it.
+   Historical witness of the defect this replaces (finding F16): 17x9 4:2:0 — the luma grid
+   was allocated DivCeil(17*2,16) = 3 blocks wide while the scan visits mcuCols*H = 4 blocks
+   per row, so padding block (3,0) landed on the cell of block (0,1). *)
+From V Require Import Common.Base JpegDCT.DctGeometry JpegDCT.DctPipeline.
 
 Lemma div_ceil_pos : forall a b, 1 <= a -> 1 <= b -> 1 <= div_ceil a b.
 Proof.
@@ -8,25 +14,50 @@ Proof.
   apply Z.div_le_lower_bound; lia.
 Qed.
 
+(* a <= DivCeil(a,b) * b : the MCU grid covers the image *)
+Lemma div_ceil_covers : forall a b, 0 <= a -> 1 <= b -> a <= div_ceil a b * b.
+Proof.
+  intros a b Ha Hb. unfold div_ceil. rewrite Z.quot_div_nonneg by lia.
+  pose proof (Z.div_mod (a + b - 1) b ltac:(lia)) as E.
+  pose proof (Z.mod_pos_bound (a + b - 1) b ltac:(lia)) as B. nia.
+Qed.
+
 Lemma fold_max_ge_init : forall l a, a <= fold_left Z.max l a.
 Proof. induction l as [|x l IH]; intros a; simpl; [lia|]. specialize (IH (Z.max a x)). lia. Qed.
+Lemma fold_max_ge_elem : forall l a x, In x l -> x <= fold_left Z.max l a.
+Proof.
+  induction l as [|y l IH]; intros a x Hin; [inversion Hin|]. simpl. destruct Hin as [->|Hin].
+  - pose proof (fold_max_ge_init l (Z.max a x)). lia.
+  - apply IH. exact Hin.
+Qed.
 Lemma max_list_ge1 : forall l, 1 <= max_list l.
 Proof. intros l. unfold max_list. apply fold_max_ge_init. Qed.
+Lemma max_h_ge : forall comps hv, In hv comps -> fst hv <= max_h comps.
+Proof. intros comps hv Hin. unfold max_h, max_list. apply fold_max_ge_elem. apply in_map. exact Hin. Qed.
+Lemma max_v_ge : forall comps hv, In hv comps -> snd hv <= max_v comps.
+Proof. intros comps hv Hin. unfold max_v, max_list. apply fold_max_ge_elem. apply in_map. exact Hin. Qed.
+
+Lemma mcu_cols_pos : forall width comps, 1 <= width -> 1 <= mcu_cols width comps.
+Proof. intros. unfold mcu_cols. apply div_ceil_pos; [lia|]. pose proof (max_list_ge1 (map fst comps)). unfold max_h. lia. Qed.
+Lemma mcu_rows_pos : forall height comps, 1 <= height -> 1 <= mcu_rows height comps.
+Proof. intros. unfold mcu_rows. apply div_ceil_pos; [lia|]. pose proof (max_list_ge1 (map snd comps)). unfold max_v. lia. Qed.
+
+Lemma zrange_spec : forall n k, In k (zrange n) <-> 0 <= k < n.
+Proof.
+  intros n k. unfold zrange. rewrite in_map_iff. split.
+  - intros [i [E Hi]]. apply in_seq in Hi. lia.
+  - intros H. exists (Z.to_nat k). split; [lia|]. apply in_seq. lia.
+Qed.
 
 (* allocation: every component buffer is non-empty and a whole number of blocks *)
 Lemma comp_len_pos : forall width height comps hv, 1 <= width -> 1 <= height ->
   1 <= fst hv -> 1 <= snd hv -> 64 <= comp_len width height comps hv.
 Proof.
   intros width height comps hv Hw Hh HH HV. unfold comp_len, comp_wb, comp_hb.
-  pose proof (max_list_ge1 (map fst comps)) as M1. pose proof (max_list_ge1 (map snd comps)) as M2.
-  fold (max_h comps) in M1. fold (max_v comps) in M2.
-  pose proof (div_ceil_pos (width * fst hv) (max_h comps * 8) ltac:(nia) ltac:(lia)).
-  pose proof (div_ceil_pos (height * snd hv) (max_v comps * 8) ltac:(nia) ltac:(lia)).
-  nia.
+  pose proof (mcu_cols_pos width comps Hw). pose proof (mcu_rows_pos height comps Hh). nia.
 Qed.
 
-(* decodeBlock: a block that passes the guard is written entirely inside the buffer
-   (IDCTISlow writes out[0..63] relative to blockOffset) *)
+(* decodeBlock: a block that passes the guard is written entirely inside the buffer *)
 Lemma block_write_in_range : forall wb hb bx by_ i, 0 <= wb -> 0 <= bx -> 0 <= by_ ->
   block_written wb hb bx by_ = true -> 0 <= i < 64 ->
   0 <= block_offset wb bx by_ + i < wb * hb * 64.
@@ -35,8 +66,116 @@ Proof.
   apply negb_true_iff in Hw. apply Z.leb_gt in Hw. unfold block_offset in *. nia.
 Qed.
 
-(* convertToPixels: every sample index that passes the guard is inside the buffer, for any
-   sampling factors >= 1 (in particular all H,V in 1..4) and any width, height >= 1 *)
+(* a cell of the grid always passes decodeBlock's guard, and distinct cells have distinct offsets *)
+Lemma cell_written : forall wb hb bx by_, 0 <= bx < wb -> 0 <= by_ < hb -> block_written wb hb bx by_ = true.
+Proof.
+  intros wb hb bx by_ Hx Hy. unfold block_written, block_offset.
+  apply negb_true_iff. apply Z.leb_gt. nia.
+Qed.
+Lemma cell_offset_inj : forall wb bx by_ bx' by', 0 <= bx < wb -> 0 <= bx' < wb ->
+  block_offset wb bx by_ = block_offset wb bx' by' -> bx = bx' /\ by_ = by'.
+Proof.
+  intros wb bx by_ bx' by' Hx Hx' E. unfold block_offset in E.
+  assert (E' : (by_ - by') * wb = bx' - bx) by lia.
+  destruct (Z.lt_trichotomy by_ by') as [L|[Eq|G]].
+  - exfalso. assert ((by' - by_) * wb >= wb) by nia. lia.
+  - subst. split; lia.
+  - exfalso. assert ((by_ - by') * wb >= wb) by nia. lia.
+Qed.
+
+(* ---------- the scan against the grid ---------- *)
+
+(* every block the scan forms, (mcuX*H+h, mcuY*V+v), is a cell of the component grid *)
+Theorem scan_block_in_grid : forall width height comps hv b,
+  1 <= fst hv -> 1 <= snd hv ->
+  In b (scan_blocks width height comps hv) ->
+  0 <= fst b < comp_wb width comps hv /\ 0 <= snd b < comp_hb height comps hv.
+Proof.
+  intros width height comps hv b HH HV Hin. unfold scan_blocks in Hin.
+  apply in_flat_map in Hin. destruct Hin as [my [Hmy Hin]].
+  apply in_flat_map in Hin. destruct Hin as [mx [Hmx Hin]].
+  apply in_flat_map in Hin. destruct Hin as [v [Hv Hin]].
+  apply in_map_iff in Hin. destruct Hin as [h [E Hh]].
+  apply zrange_spec in Hmy, Hmx, Hv, Hh. subst b. unfold comp_wb, comp_hb. simpl. nia.
+Qed.
+
+(* conversely every cell of the grid is delivered by the scan *)
+Theorem grid_cell_in_scan : forall width height comps hv bx by_,
+  1 <= fst hv -> 1 <= snd hv ->
+  0 <= bx < comp_wb width comps hv -> 0 <= by_ < comp_hb height comps hv ->
+  In (bx, by_) (scan_blocks width height comps hv).
+Proof.
+  intros width height comps hv bx by_ HH HV Hx Hy. unfold comp_wb, comp_hb in *. unfold scan_blocks.
+  apply in_flat_map. exists (by_ / snd hv). split.
+  { apply zrange_spec. split; [apply Z.div_pos; lia | apply Z.div_lt_upper_bound; lia]. }
+  apply in_flat_map. exists (bx / fst hv). split.
+  { apply zrange_spec. split; [apply Z.div_pos; lia | apply Z.div_lt_upper_bound; lia]. }
+  apply in_flat_map. exists (by_ mod snd hv). split.
+  { apply zrange_spec. apply Z.mod_pos_bound. lia. }
+  apply in_map_iff. exists (bx mod fst hv). split.
+  { f_equal.
+    - pose proof (Z.div_mod bx (fst hv) ltac:(lia)). lia.
+    - pose proof (Z.div_mod by_ (snd hv) ltac:(lia)). lia. }
+  apply zrange_spec. apply Z.mod_pos_bound. lia.
+Qed.
+
+(* fold characterisation of last_writer *)
+Lemma last_writer_spec : forall wb hb off l acc,
+  let hit := fun b : Z * Z => block_written wb hb (fst b) (snd b) && (block_offset wb (fst b) (snd b) =? off) in
+  let r := fold_left (fun acc b => if hit b then Some b else acc) l acc in
+  (r = acc /\ forall b, In b l -> hit b = false) \/ (exists b, In b l /\ hit b = true /\ r = Some b).
+Proof.
+  intros wb hb off l. induction l as [|a l IH]; intros acc hit r.
+  - left. split; [reflexivity | intros b []].
+  - subst r. cbn [fold_left].
+    specialize (IH (if hit a then Some a else acc)). cbv zeta in IH. fold hit in IH.
+    destruct IH as [[E Hn]|[b [Hb [Hh E]]]].
+    + destruct (hit a) eqn:Ha.
+      * right. exists a. split; [left; reflexivity | split; [exact Ha | exact E]].
+      * left. split; [exact E|]. intros b [<-|Hb]; [exact Ha | apply Hn; exact Hb].
+    + right. exists b. split; [right; exact Hb | split; assumption].
+Qed.
+
+(* THE GRID THEOREM: after the scan every cell (bx,by) of the component grid holds the data
+   of scan block (bx,by) — all sampling factors >= 1 (in particular 1..4), all widths and
+   heights. *)
+Theorem scan_grid_ok : forall width height comps hv bx by_,
+  1 <= fst hv -> 1 <= snd hv ->
+  0 <= bx < comp_wb width comps hv -> 0 <= by_ < comp_hb height comps hv ->
+  last_writer (comp_wb width comps hv) (comp_hb height comps hv)
+              (scan_blocks width height comps hv)
+              (block_offset (comp_wb width comps hv) bx by_) = Some (bx, by_).
+Proof.
+  intros width height comps hv bx by_ HH HV Hx Hy.
+  set (wb := comp_wb width comps hv) in *. set (hb := comp_hb height comps hv) in *.
+  unfold last_writer.
+  pose proof (last_writer_spec wb hb (block_offset wb bx by_) (scan_blocks width height comps hv) None) as S.
+  cbv zeta in S. destruct S as [[_ Hn]|[b [Hb [Hh E]]]].
+  - exfalso. specialize (Hn (bx, by_) (grid_cell_in_scan width height comps hv bx by_ HH HV Hx Hy)).
+    cbn [fst snd] in Hn. fold wb in Hn. rewrite (cell_written wb hb bx by_ Hx Hy) in Hn.
+    rewrite Z.eqb_refl in Hn. discriminate.
+  - rewrite E. f_equal.
+    apply andb_true_iff in Hh. destruct Hh as [_ Ho]. apply Z.eqb_eq in Ho.
+    pose proof (scan_block_in_grid width height comps hv b HH HV Hb) as [Gx Gy]. fold wb hb in Gx, Gy.
+    destruct b as [x' y']. cbn [fst snd] in *.
+    pose proof (cell_offset_inj wb x' y' bx by_ Gx Hx Ho) as [-> ->]. reflexivity.
+Qed.
+
+(* every scan block passes the guard (none is skipped) and is written inside the buffer *)
+Corollary scan_block_written : forall width height comps hv b i,
+  1 <= fst hv -> 1 <= snd hv -> In b (scan_blocks width height comps hv) -> 0 <= i < 64 ->
+  block_written (comp_wb width comps hv) (comp_hb height comps hv) (fst b) (snd b) = true /\
+  0 <= block_offset (comp_wb width comps hv) (fst b) (snd b) + i < comp_len width height comps hv.
+Proof.
+  intros width height comps hv b i HH HV Hin Hi.
+  pose proof (scan_block_in_grid width height comps hv b HH HV Hin) as [Gx Gy].
+  pose proof (cell_written _ _ _ _ Gx Gy) as W. split; [exact W|].
+  unfold comp_len. apply block_write_in_range; try lia. exact W.
+Qed.
+
+(* ---------- convertToPixels ---------- *)
+
+(* every sample index that passes the guard is inside the buffer *)
 Theorem geometry_in_range : forall width height comps hv x y i,
   1 <= width -> 1 <= height -> In hv comps ->
   (forall c, In c comps -> 1 <= fst c <= 4 /\ 1 <= snd c <= 4) ->
@@ -66,45 +205,83 @@ Proof.
   nia.
 Qed.
 
-(* ---------- the scan's block grid against the allocated grid ---------- *)
-
-(* What a correct decoder needs: after the scan, every block (bx,by) of the component's
-   allocated grid holds the data of scan block (bx,by). *)
-Definition scan_grid_statement : Prop :=
-  forall width height comps hv bx by_,
-    1 <= width -> 1 <= height -> In hv comps ->
-    (forall c, In c comps -> 1 <= fst c <= 4 /\ 1 <= snd c <= 4) ->
-    0 <= bx < comp_wb width comps hv -> 0 <= by_ < comp_hb height comps hv ->
-    last_writer (comp_wb width comps hv) (comp_hb height comps hv)
-                (scan_blocks width height comps hv)
-                (block_offset (comp_wb width comps hv) bx by_) = Some (bx, by_).
-
-(* Refuted by ordinary 4:2:0: a 17x9 image. The luma grid is allocated 3 blocks wide
-   (DivCeil(17*2,16)) but the scan visits mcuCols*H = 4 blocks per row; padding block (3,0)
-   lands on the offset of block (0,1), which was decoded earlier in the same MCU row. *)
-Theorem scan_grid_refuted : ~ scan_grid_statement.
+(* the guard never fails when the first component carries the largest sampling factors
+   (every stream in the property's scope: Y first): no sample is left at 0 *)
+Theorem pixel_guard_passes : forall width height c0 rest hv x y,
+  1 <= width -> 1 <= height -> In hv (c0 :: rest) ->
+  (forall c, In c (c0 :: rest) -> 1 <= fst c /\ 1 <= snd c) ->
+  max_h (c0 :: rest) = fst c0 -> max_v (c0 :: rest) = snd c0 ->
+  0 <= x < width -> 0 <= y < height ->
+  pixel_index width height (c0 :: rest) hv x y <> None.
 Proof.
-  intro H.
-  specialize (H 17 9 [(2, 2); (1, 1); (1, 1)] (2, 2) 0 1).
-  assert (E : last_writer (comp_wb 17 [(2, 2); (1, 1); (1, 1)] (2, 2)) (comp_hb 9 [(2, 2); (1, 1); (1, 1)] (2, 2))
-                (scan_blocks 17 9 [(2, 2); (1, 1); (1, 1)] (2, 2))
-                (block_offset (comp_wb 17 [(2, 2); (1, 1); (1, 1)] (2, 2)) 0 1) = Some (3, 0))
-    by (vm_compute; reflexivity).
-  rewrite E in H.
-  assert (Hc : Some (3, 0) = Some (0, 1)).
-  { apply H; try lia.
-    - simpl; auto.
-    - intros c Hc. simpl in Hc. destruct Hc as [Hc|[Hc|[Hc|[]]]]; subst; simpl; lia.
-    - replace (comp_wb 17 [(2, 2); (1, 1); (1, 1)] (2, 2)) with 3 by (vm_compute; reflexivity). lia.
-    - replace (comp_hb 9 [(2, 2); (1, 1); (1, 1)] (2, 2)) with 2 by (vm_compute; reflexivity). lia. }
-  discriminate.
+  intros width height c0 rest hv x y Hw Hh Hin Hall Mh Mv Hx Hy.
+  pose proof (Hall c0 (or_introl eq_refl)) as [Hc0h Hc0v].
+  pose proof (Hall hv Hin) as [Hh1 Hv1].
+  unfold pixel_index.
+  set (sx := Z.quot (x * fst hv) (fst c0)). set (sy := Z.quot (y * snd hv) (snd c0)).
+  assert (Cw : width <= mcu_cols width (c0 :: rest) * (fst c0 * 8)).
+  { unfold mcu_cols. rewrite Mh. apply div_ceil_covers; lia. }
+  assert (Ch : height <= mcu_rows height (c0 :: rest) * (snd c0 * 8)).
+  { unfold mcu_rows. rewrite Mv. apply div_ceil_covers; lia. }
+  assert (Bx : Z.quot sx 8 < comp_wb width (c0 :: rest) hv).
+  { unfold comp_wb, sx. rewrite (Z.quot_div_nonneg (x * fst hv) (fst c0)) by nia.
+    assert (0 <= x * fst hv / fst c0) by (apply Z.div_pos; nia).
+    rewrite Z.quot_div_nonneg by lia.
+    apply Z.div_lt_upper_bound; [lia|]. apply Z.div_lt_upper_bound; [lia|]. nia. }
+  assert (By : Z.quot sy 8 < comp_hb height (c0 :: rest) hv).
+  { unfold comp_hb, sy. rewrite (Z.quot_div_nonneg (y * snd hv) (snd c0)) by nia.
+    assert (0 <= y * snd hv / snd c0) by (apply Z.div_pos; nia).
+    rewrite Z.quot_div_nonneg by lia.
+    apply Z.div_lt_upper_bound; [lia|]. apply Z.div_lt_upper_bound; [lia|]. nia. }
+  apply Z.ltb_lt in Bx. apply Z.ltb_lt in By. rewrite Bx, By. simpl. discriminate.
 Qed.
 
-(* The encoders of /repo only ever emit 1x1 sampling. For that case the grid is right: checked
-   exhaustively for every width and height 1..40 (all partial block shapes, up to 5x5 blocks),
-   one and three components. *)
-Definition sizes40 : list Z := map Z.of_nat (seq 1 40).
+(* the sample a pixel is read from belongs to the scan block (sx/8, sy/8) — the block the
+   scan wrote for that position: pixel_owner (= last writer of the cell the index falls in)
+   is that block, for every pixel whose guard passes *)
+Theorem pixel_read_ok : forall width height c0 rest hv x y i,
+  1 <= width -> 1 <= height -> In hv (c0 :: rest) ->
+  (forall c, In c (c0 :: rest) -> 1 <= fst c /\ 1 <= snd c) ->
+  0 <= x < width -> 0 <= y < height ->
+  pixel_index width height (c0 :: rest) hv x y = Some i ->
+  pixel_owner width height (c0 :: rest) hv x y =
+    Some (Z.quot (Z.quot (x * fst hv) (fst c0)) 8, Z.quot (Z.quot (y * snd hv) (snd c0)) 8).
+Proof.
+  intros width height c0 rest hv x y i Hw Hh Hin Hall Hx Hy Hpi.
+  pose proof (Hall c0 (or_introl eq_refl)) as [Hc0h Hc0v].
+  pose proof (Hall hv Hin) as [Hh1 Hv1].
+  unfold pixel_owner. rewrite Hpi. unfold pixel_index in Hpi.
+  set (sx := Z.quot (x * fst hv) (fst c0)) in *.
+  set (sy := Z.quot (y * snd hv) (snd c0)) in *.
+  assert (Hsx : 0 <= sx) by (unfold sx; apply Z.quot_pos; nia).
+  assert (Hsy : 0 <= sy) by (unfold sy; apply Z.quot_pos; nia).
+  set (wb := comp_wb width (c0 :: rest) hv) in *.
+  set (hb := comp_hb height (c0 :: rest) hv) in *.
+  destruct ((Z.quot sx 8 <? wb) && (Z.quot sy 8 <? hb)) eqn:G; [|discriminate].
+  apply andb_true_iff in G. destruct G as [G1 G2]. apply Z.ltb_lt in G1. apply Z.ltb_lt in G2.
+  inversion Hpi; subst i; clear Hpi.
+  assert (Hbx : 0 <= Z.quot sx 8) by (apply Z.quot_pos; lia).
+  assert (Hby : 0 <= Z.quot sy 8) by (apply Z.quot_pos; lia).
+  assert (Hrx : 0 <= Z.rem sx 8 < 8) by (apply Z.rem_bound_pos; lia).
+  assert (Hry : 0 <= Z.rem sy 8 < 8) by (apply Z.rem_bound_pos; lia).
+  assert (E : Z.quot (block_offset wb (Z.quot sx 8) (Z.quot sy 8) + Z.rem sy 8 * 8 + Z.rem sx 8) 64 * 64
+              = block_offset wb (Z.quot sx 8) (Z.quot sy 8)).
+  { unfold block_offset.
+    set (k := Z.quot sy 8 * wb + Z.quot sx 8). assert (0 <= k) by (unfold k; nia).
+    rewrite Z.quot_div_nonneg by lia.
+    replace (k * 64 + Z.rem sy 8 * 8 + Z.rem sx 8) with ((Z.rem sy 8 * 8 + Z.rem sx 8) + k * 64) by ring.
+    rewrite Z.div_add by lia. rewrite Z.div_small by lia. ring. }
+  rewrite E. apply scan_grid_ok; lia.
+Qed.
 
+(* output: width*height*components samples, one index per (pixel, channel) *)
+Lemma out_index_in_range : forall width height ncomp x y ch,
+  0 <= x < width -> 0 <= y < height -> 0 <= ch < ncomp ->
+  0 <= (y * width + x) * ncomp + ch < out_len width height ncomp.
+Proof. intros. unfold out_len. nia. Qed.
+
+(* executable form used by the finite cross-checks below *)
+Definition sizes40 : list Z := map Z.of_nat (seq 1 40).
 Definition grid_ok (width height : Z) (comps : list (Z * Z)) (hv : Z * Z) : bool :=
   let wb := comp_wb width comps hv in let hb := comp_hb height comps hv in
   let sb := scan_blocks width height comps hv in
@@ -114,38 +291,6 @@ Definition grid_ok (width height : Z) (comps : list (Z * Z)) (hv : Z * Z) : bool
     | None => false
     end) (zrange wb)) (zrange hb).
 
-Lemma scan_grid_ok_444_b :
-  forallb (fun w => forallb (fun h =>
-    grid_ok w h [(1, 1)] (1, 1) && grid_ok w h [(1, 1); (1, 1); (1, 1)] (1, 1)) sizes40) sizes40 = true.
-Proof. vm_compute. reflexivity. Qed.
-
-Lemma sizes40_spec : forall n, 1 <= n <= 40 -> In n sizes40.
-Proof.
-  intros n Hn. unfold sizes40. apply in_map_iff. exists (Z.to_nat n). split; [lia|]. apply in_seq. lia.
-Qed.
-
-Theorem scan_grid_ok_444 : forall w h, 1 <= w <= 40 -> 1 <= h <= 40 ->
-  grid_ok w h [(1, 1)] (1, 1) = true /\ grid_ok w h [(1, 1); (1, 1); (1, 1)] (1, 1) = true.
-Proof.
-  intros w h Hw Hh. pose proof scan_grid_ok_444_b as H. rewrite forallb_forall in H.
-  specialize (H w (sizes40_spec w Hw)). rewrite forallb_forall in H.
-  specialize (H h (sizes40_spec h Hh)). apply andb_true_iff in H. exact H.
-Qed.
-
-(* 4:2:0 goes wrong exactly when the luma block count per row is odd and greater than one
-   and there is more than one block row; characterised on the same finite range: for every
-   w,h in 1..40 the 4:2:0 luma grid is right iff DivCeil(w,8) is even or 1, or h <= 8.
-   4:2:2 and 4:4:0 come out right on the whole range (the stray block is overwritten later
-   or falls outside the buffer and is skipped). *)
-Lemma scan_grid_420_characterised :
-  forallb (fun w => forallb (fun h =>
-    Bool.eqb (grid_ok w h [(2, 2); (1, 1); (1, 1)] (2, 2))
-             (Z.even (div_ceil w 8) || (div_ceil w 8 =? 1) || (h <=? 8))) sizes40) sizes40 = true.
-Proof. vm_compute. reflexivity. Qed.
-
-Lemma scan_grid_422_440_ok :
-  forallb (fun w => forallb (fun h =>
-    grid_ok w h [(2, 1); (1, 1); (1, 1)] (2, 1) && grid_ok w h [(2, 1); (1, 1); (1, 1)] (1, 1) &&
-    grid_ok w h [(1, 2); (1, 1); (1, 1)] (1, 2) && grid_ok w h [(1, 2); (1, 1); (1, 1)] (1, 1) &&
-    grid_ok w h [(2, 2); (1, 1); (1, 1)] (1, 1)) sizes40) sizes40 = true.
+(* sanity: the historical witness is fine now *)
+Example scan_grid_17x9_420_now_ok : grid_ok 17 9 [(2, 2); (1, 1); (1, 1)] (2, 2) = true.
 Proof. vm_compute. reflexivity. Qed.
